@@ -125,6 +125,10 @@ def groups_extra(tier):
     for d in ('many', 'plain'):      # hundreds of groups: an order that varies from run to run shows with certainty
         for path in ('grouped', 'grouped-ordered', 'grouped-tied'):
             yield {'dir': d, 'path': path, 'cases': [{'cols': ci, 'fmt': fmt, 'limit': lim} for ci in (0, 1, 5) for fmt in FORMATS for lim in (1, 3, 7)]}
+    # ORDER BY keys that are constants (the rows may come in any order, the table is the same)
+    for d in ('d1', 'd2', 'plain', 'r1, r2'):
+        for path in ('ordered-const:-1', 'ordered-const:2.5', 'ordered-const:1 + 1', 'ordered-const:-1, -7'):
+            yield {'dir': d, 'path': path, 'cases': [{'cols': ci, 'fmt': fmt, 'limit': lim} for ci in (0, 1) for fmt in FORMATS for lim in (None, 2)]}
     # a column selected more than once
     for d in ('d1', 'd2', 'plain'):
         for path in ('stream', 'ordered', 'grouped'):
@@ -290,6 +294,8 @@ def eval_group(env, group, tier):
                 sel, tail, ordered = cols, '', False
             elif path == 'ordered':
                 sel, tail, ordered = cols, ' order by name desc', True
+            elif path.startswith('ordered-const:'):
+                sel, tail, ordered = cols, ' order by ' + path.split(':', 1)[1], False
             elif path == 'aggregate':
                 sel, tail, ordered = ['count(*)', 'sum(size)', "'a<b>&c,\"d e'"][:len(cols) + 1], '', False
             elif path == 'grouped':
@@ -337,7 +343,7 @@ def eval_group(env, group, tier):
             if err:
                 r.update(status='viol', cls='%s:malformed:%s' % (fmt, path), detail={'query': case['query'], 'error': err, 'head': text[:200]},
                          sig=('malformed', fmt, path))
-            elif c['limit'] and not ordered and path == 'stream':
+            elif c['limit'] and not ordered and (path == 'stream' or path.startswith('ordered-const:')):
                 # an unordered limited table may pick any rows: compare size and membership against the unlimited table
                 full = env.run([', '.join(sel) + ' from ' + d + ' into list'], cwd=root).rows(len(sel))
                 if len(sel) == 1:
